@@ -136,3 +136,41 @@ Proof.
   cbv zeta in H. rewrite E in H. exact H.
 Qed.
 Print Assumptions C12_write_safe.
+
+(* ------------------------------------------------------------------ *)
+(* Signalling (Model/Signal.v: rtpconn/webclient.go handleClientMessage,
+   handleAction, leaveGroup, the end of a connection; tied to the code by the
+   drivers `sig` and `sigfuzz`).  The names of that model are used qualified. *)
+From Galene Require Model.Signal Proofs.SignalSafe.
+
+(* For ALL sequences of scheduler operations (new groups and connections,
+   any message of any type/kind with any field values in any membership
+   state, any order of message reads and action-queue services, any
+   negotiation outcome, disconnections) the model never reaches Panic. *)
+Theorem C12_signalling_safe : forall ops,
+  Signal.run_ops Signal.empty_world ops <> None.
+Proof. exact SignalSafe.signalling_safe. Qed.
+Print Assumptions C12_signalling_safe.
+
+(* ... and from every state in which non-members hold no permission,
+   whatever its connection tables contain *)
+Theorem C12_signalling_safe_from : forall w ops,
+  SignalSafe.Inv w -> Signal.run_ops w ops <> None.
+Proof. exact SignalSafe.signalling_safe_from. Qed.
+Print Assumptions C12_signalling_safe_from.
+
+(* A message naming a connection id the client does not have (never created,
+   already closed, another client's): ice (non-null candidate), renegotiate
+   and close change nothing; abort and answer only send `close` to the sender;
+   requestStream returns an error, which ends the sender's own connection. *)
+Theorem C12_signalling_unknown_id : forall w h c m,
+  Signal.get_client w h = Some c -> Signal.is_empty (Signal.m_id m) = false ->
+  SignalSafe.no_conn c (Signal.m_id m) ->
+  (Signal.m_candidate m = true -> Signal.handle_ice w h c m = Signal.ok w) /\
+  Signal.handle_renegotiate w h c m = Signal.ok w /\
+  Signal.handle_close w h c m = Signal.ok w /\
+  Signal.handle_abort w h c m = Signal.ok (Signal.close_down_conn w h (Signal.m_id m)) /\
+  Signal.handle_answer w h c m = Signal.ok (Signal.close_down_conn w h (Signal.m_id m)) /\
+  (exists a, Signal.handle_request_stream w h c m = Signal.failed w Signal.EInternal a).
+Proof. exact SignalSafe.unknown_id_harmless. Qed.
+Print Assumptions C12_signalling_unknown_id.
